@@ -81,6 +81,7 @@ struct ghost {
   const char *dup_src; char *dup_ptr;       /* strdup: dup_ptr is a copy of dup_src      */
   const char *prep_src; char *prep_ptr;     /* path_prepend_cwd: prep_ptr = cwd/prep_src */
   char **env_ptr; char *const *env_a; const char *const *env_b; /* strv_concat: env_ptr = a ++ b */
+  void *last_freed_vec;      /* vector last handed to strv_free */
   int plan_pos;              /* stop-sequence monitor: next expected step */
 };
 
@@ -112,7 +113,7 @@ struct ghost_cfg {
   int64_t plan_deadline;     /* the handle's deadline (-1: none)               */
   const uint8_t *in_data; size_t in_size;   /* start-up input (C02) */
   const char *want_argv0; bool want_prepend;
-  char *const *want_env_a; const char *const *want_env_b;
+  char *const *want_env_a; const char *const *want_env_b; /* expected environment = a ++ b */
 };
 
 extern struct ghost g;
